@@ -26,6 +26,10 @@ PASSIVE_USAGE = {"sample2": "sum2", "sampleu": "sumu"}
 
 
 # --------------------------------------------------------------------------------------------- rendering
+_packs_done = set()   # pack statements already emitted in the graph being rendered
+_pack_base = [900]    # statement ids of pack statements are unique per graph (node ids are global in a scenario)
+
+
 def _stmt(i, n, ref):
     """scenario statement for node i (1-based id) with input refs already rendered."""
     kv = []
@@ -42,6 +46,12 @@ def _stmt(i, n, ref):
     elif n["kind"] == "fb":
         if n["init"] != -1:
             kv.append("init=%d" % n["init"])
+    if n["kind"] in ("elem0", "elem1"):
+        # an element of a two-element list output produced by ONE node (pack2): two statements
+        pk = _pack_base[0] + n["pack"]
+        pre = "" if pk in _packs_done else "n %d pack2 in=%s,%s\n" % (pk, ref(n["ins"][0]), ref(n["ins"][1]))
+        _packs_done.add(pk)
+        return pre + "n %d elem in=%d i=%d" % (i, pk, 0 if n["kind"] == "elem0" else 1)
     s = "n %d %s" % (i, PASSIVE_USAGE.get(n["kind"], n["kind"]))
     if kv:
         s += " " + " ".join(kv)
@@ -158,6 +168,8 @@ def render(prog, order=None, group=None, mode="nested", depth=1, name=None, capt
         members, ext_in, outn = group
         argref = {j: "a%d" % k for k, j in enumerate(ext_in)}
         lines.append("graph g0 nin=%d" % len(ext_in))
+        _packs_done.clear()
+        _pack_base[0] = 950
         for i in [x for x in order if x in members]:
             lines.append(_stmt(i, nodes[i - 1], lambda j: argref[j] if j in argref else str(j)))
             if i in capture:
@@ -172,6 +184,8 @@ def render(prog, order=None, group=None, mode="nested", depth=1, name=None, capt
             lines.append("endgraph")
             top = 1
     lines.append("graph root")
+    _packs_done.clear()
+    _pack_base[0] = 900
     binds = []
     emitted_group = False
     mset = set(group[0]) if group else set()
